@@ -67,7 +67,7 @@ pub (super) fn verif_queue_snapshot(core: &JobQueueCore) -> String {
         other => format!("{:?}", other)
     };
     let jobs: Vec<String> = core.queue.iter().map(|job| format!("{:x}", &**job as *const dyn ScheduledJob as *const u8 as usize)).collect();
-    let waiters: Vec<String> = core.wake_blocked.iter().map(|cv| cv.upgrade().map(|cv| cv.verif_name()).unwrap_or_else(|| "x".to_string())).collect();
+    let waiters: Vec<String> = core.wake_blocked.iter().map(|(cv, _)| cv.upgrade().map(|cv| cv.verif_name()).unwrap_or_else(|| "x".to_string())).collect();
     format!("{} [{}] [{}]", state, jobs.join(","), waiters.join(","))
 }
 
